@@ -1744,6 +1744,12 @@ class GroupBy:
                     "column. Please use `aggregate` if you really need to do this."
                 )
             result = result[result.columns[0]]
+        elif isinstance(self._slice, (list, tuple)):
+            # the frame was projected in its own column order; pandas returns
+            # the columns in the order of the selection
+            columns = [c for c in self._slice if c in result.columns]
+            if columns != list(result.columns) and len(columns) == len(result.columns):
+                result = result[columns]
         return result
 
     @derived_from(pd.core.groupby.GroupBy)
@@ -2157,6 +2163,8 @@ Please provide `meta` if the result is unexpected.
         )
         if split_out is not True:
             result = result.repartition(npartitions=split_out)
+        if result.ndim == 2:
+            result = self._postprocess_series_squeeze(result)
         return result
 
     def rolling(self, window, min_periods=None, center=False, win_type=None, axis=0):
